@@ -149,10 +149,17 @@ def r141(ctx, rep, f, ev, cg, reach):
             tt, ft = _switch_targets(b, it[0][1].get("t"))
             ok = tt is not None and ft is not None
             if ok:
-                ok_true = [x for x in oks if b.dominates(tt, x)]
+                # counted on the paths from the matching edge / the non-matching edge / around the test to the points
+                # where the RDH is returned (Ok results) or handed to the skip routine — whether each branch builds
+                # its own Ok(..) or all branches join in front of a single one
+                sw_blk = [x for x in b.live_blocks() if b.blocks[x]["t"]["k"] == "switch" and {tt, ft} <= set(b.succ[x])]
+                test_edges = [(x, y) for x in sw_blk for y in (tt, ft)]
+                from_t = b.reachable_from(tt, removed=[ft])
+                from_f = b.reachable_from(ft, removed=[tt])
+                ok_true = [x for x in oks if x in from_t]
                 r_true = [rng(b, tt, [x], st, drop) for x in ok_true]
-                r_false = [rng(b, ft, [x], st, drop) for x in skips + [x for x in oks if not b.dominates(tt, x) and short == "load_next_rdh_to_filter"]]
-                r_nofilter = [rng(b, 0, [x], st, drop) for x in oks if not b.dominates(it[0][0], x)] if short == "load_rdh_cru" else []
+                r_false = [rng(b, ft, [x], st, drop) for x in (skips if short == "load_rdh_cru" else skips + [x for x in oks if x in from_f and x not in from_t])]
+                r_nofilter = [rng(b, 0, [x], st, drop + test_edges) for x in oks] if short == "load_rdh_cru" else []
                 ok = bool(ok_true) and all(r == (1, 1) for r in r_true) and all(r in (None, (0, 0)) for r in r_false) and all(r in (None, (0, 0)) for r in r_nofilter)
                 det = "matching side %s, other side %s, no filter %s" % (r_true, r_false, r_nofilter)
         rep.check(ok, "R14.1", "R14.1|filtered|%s" % short, "%s: rdh_filtered() exactly once for an RDH that matches the filter and is returned, never otherwise (%s)" % (short, det), WS,
@@ -185,7 +192,11 @@ def r141(ctx, rep, f, ev, cg, reach):
         t = b.blocks[x]["t"]
         if t["k"] == "switch":
             so = show_origin(b.origin(t["d"]))
-            if so in ["discr(%s)" % (b.names.get(l_) or "_%d" % l_) for l_ in res_locals]:
+            names_ = [(b.names.get(l_) or "_%d" % l_) for l_ in res_locals]
+            # `match res {Err..}` tests the result itself, `res?` tests Try::branch(res): Break (1) is the error edge
+            is_q = any(re.fullmatch(r"discr\(.*Try>::branch\((%s|.*load_next_rdh_to_filter\(.*\))\)\)" % re.escape(nm_), so) for nm_ in names_) or \
+                (so.startswith("discr(") and "Try>::branch(" in so and "load_next_rdh_to_filter(" in so)
+            if so in ["discr(%s)" % nm_ for nm_ in names_] or is_q:
                 err_edges += [(x, v[1]) for v in t["vals"] if v[0] == 1]
                 if not any(v[0] == 1 for v in t["vals"]):
                     err_edges.append((x, t["else"]))
@@ -293,6 +304,9 @@ def _switch_targets(b, blk):
         if t["k"] == "switch":
             vals = t["vals"]
             if len(vals) == 1 and vals[0][0] == 0:
+                o = b.origin(t["d"])
+                if isinstance(o, tuple) and o and o[0] == "un" and o[1] == "Not":
+                    return vals[0][1], t["else"]      # the test is on the negated result
                 return t["else"], vals[0][1]
             return None, None
         if t["k"] == "goto":
@@ -481,27 +495,50 @@ def r142(ctx, rep, f, ev, cg, reach):
                   "%s::sum mixes fields: %s" % (p_.split("::")[-2], bad or "no field-wise sum recognised"))
     rep.floor("R14.2-sums", nsum, 2, "field-wise sum functions of the statistics structs")
     # Controller::update hands every variant to collect
-    ev.watch = lambda c: c == COLL + "collect"
+    # decided per message variant and per state "a fatal error was already recorded": update() is evaluated with the
+    # message being that variant (symbolic payload) and any_fatal_err() replaced by the state — every message is handed
+    # to collect() unchanged exactly once, except Error/Fatal after a fatal error, which are dropped
     up = "fastpasta::controller::Controller::<C>::update"
-    recs = _recs(ev, up, [Sym("self"), Sym("stat")]) if up in f.fns else []
-    calls = [o for o in recs if "call" in o]
-    rets = [o for o in recs if "ret" in o]
+    svar_fields = {v_["name"]: [fd["name"] for fd in v_["fields"]] for v_ in f.adts[STT]["variants"]} if STT in f.adts else {}
+
+    def _payload(vname, fname):
+        # a tuple-typed payload is a tuple of symbols (it may be taken apart and put together again on the way)
+        for v_ in f.adts[STT]["variants"]:
+            if v_["name"] == vname:
+                for fd in v_["fields"]:
+                    if fd["name"] == fname and fd["ty"].get("tuple"):
+                        inner = fd["ty"]["s"].strip()[1:-1]
+                        depth_, n_ = 0, 1
+                        for ch in inner:
+                            depth_ += ch in "(<["
+                            depth_ -= ch in ")>]"
+                            n_ += (ch == "," and depth_ == 0)
+                        return tuple(Sym("P_%s_%d" % (fname, i_)) for i_ in range(n_))
+        return Sym("P_%s" % fname)
     for v in svars:
-        mine = [o for o in calls if any(("is%s(sym(stat))" % v) in g for g in o["guard"])]
-        ok = len(mine) == 1
-        if ok:
-            a = mine[0]["args"][1]
-            ok = a == "sym(stat)" or a.startswith("StatType::%s(" % v) and "payload(sym(stat),%s)" % v in a
-            extra = [g for g in mine[0]["guard"] if ("is%s(" % v) not in g]
-            allowed_extra = ["not symc(isSome(sym(self.stats_collector.error_stats.fatal_error)))"] if v in ("Error", "Fatal") else []
-            ok = ok and extra == allowed_extra
-        early = [o for o in rets if any(("is%s(sym(stat))" % v) in g for g in o["guard"])]
-        if v in ("Error", "Fatal"):
-            ok = ok and len(early) == 1 and early[0]["guard"][-1] == "symc(isSome(sym(self.stats_collector.error_stats.fatal_error)))"
-        else:
-            ok = ok and not early
+        ok = up in f.fns
+        seen = {}
+        for fatal_seen in (False, True):
+            stat = Agg(STT, v, {fn_: _payload(v, fn_) for fn_ in svar_fields.get(v, [])})
+            ev.call_hooks = [(lambda fn, res: (res or fn).endswith("::any_fatal_err"), lambda n, a, fatal_seen=fatal_seen: Cond("true" if fatal_seen else "false"))]
+            ev.watch = lambda c: c == COLL + "collect"
+            try:
+                recs_ = [o for o in _recs(ev, up, [Sym("self"), stat]) if "call" in o and not any(g in ("false", "not true") for g in o["guard"])] if ok else []
+            except Unsupported as e:
+                recs_ = []
+                ok = False
+            finally:
+                ev.call_hooks = []
+            live = [o for o in recs_ if all(g in ("true", "not false") for g in o["guard"])]
+            undecided = [o for o in recs_ if o not in live]
+            seen[fatal_seen] = ([o["args"][1] for o in live], len(undecided))
+        exp_arg = vkey(Agg(STT, v, {fn_: _payload(v, fn_) for fn_ in svar_fields.get(v, [])}))
+        want_after_fatal = [] if v in ("Error", "Fatal") else [exp_arg]
+        ok = ok and seen[False] == ([exp_arg], 0) and seen[True] == (want_after_fatal, 0)
+        mine, early = seen.get(False, ([], 0))[0], seen.get(True, ([], 0))[0]
         rep.check(ok, "R14.2", "R14.2|update|%s" % v, "Controller::update collects StatType::%s%s" % (v, " unless a fatal error was already recorded" if v in ("Error", "Fatal") else ""), "fastpasta/src/controller.rs",
-                  "Controller::update: StatType::%s reaches collect via %s; early returns %s" % (v, [(o["args"][1][:80], [g[:60] for g in o["guard"]]) for o in mine], [[g[:60] for g in o["guard"]] for o in early]))
+                  "Controller::update: StatType::%s is collected as %s normally and as %s after a fatal error (expected %s / %s)" % (
+                      v, [x[:80] for x in mine], [x[:80] for x in early], [exp_arg[:80]], [x[:80] for x in want_after_fatal]))
     ev.watch = None
 
 
